@@ -626,6 +626,7 @@ impl ScaleExec {
         snap.extend_from_slice(&stable);
         let (is_enc, failed, limits) = (c.is_enc, c.failed, c.limits);
         let finishing = words == ["finish"] && !failed;
+        let input: Vec<u8> = if finishing { c.logical_input.clone() } else { Vec::new() };
         let reference: Option<Vec<u8>> = if finishing && c.logical_input.len() <= (64 << 20) {
             if is_enc {
                 if limits == (252, 64008) {
@@ -661,7 +662,35 @@ impl ScaleExec {
             );
             self.viol(so, msg);
         }
+        if finishing && is_enc && snap.len() <= (64 << 20) {
+            // C01: the real decoder, in one call, must give the input back
+            let mut d = Decoder::new();
+            let back = match d.decode_copy(&snap) {
+                Ok(()) => d.finish().ok().and_then(|v| v.flatten().ok()),
+                Err(_) => None,
+            };
+            if limits == (252, 64008) && back.as_deref() != Some(&input[..]) {
+                let msg = format!(
+                    "C01 decoding the encoder's output (drained ++ finish(), {} bytes) does not give the {} input bytes back ({})",
+                    snap.len(),
+                    input.len(),
+                    match &back {
+                        Some(b) => format!("{} bytes", b.len()),
+                        None => "decoding error".to_string(),
+                    }
+                );
+                self.viol(so, msg);
+            }
+        }
         if let Some(r) = reference {
+            if snap != r && !is_enc {
+                let msg = format!(
+                    "C01 decoding in pieces (drained ++ finish(), {} bytes) differs from decoding the same bytes in one call ({} bytes)",
+                    snap.len(),
+                    r.len()
+                );
+                self.viol(so, msg);
+            }
             if snap != r {
                 let at = snap.iter().zip(r.iter()).position(|(a, b)| a != b).unwrap_or(snap.len().min(r.len()));
                 let msg = format!(
